@@ -64,8 +64,8 @@ def is_call_to(n, name, hep=None):
 
 def check_equal(ctx, rule, where, what, got, want, assume_note=None):
     """Compare two terms over the reals; record HOLDS / VIOLATION with both normal forms."""
-    got = algebra.minmax_to_ite(got)
-    want = algebra.minmax_to_ite(want)
+    got = algebra.minmax_to_ite(T.canon_idx(got))
+    want = algebra.minmax_to_ite(T.canon_idx(want))
     ok, wit = algebra.equal(got, want)
     if ok:
         ctx.holds(rule, where, '%s: normal form equals the documented formula %s'
@@ -263,3 +263,74 @@ def calls_list_term(d):
         raise AnalysisBroken('%s: the list of calls per iteration is not a single vector<size_t> parameter'
                              % d.qualname)
     return T.sym(ps[0].name)
+
+
+def usage_share(n, rank_terms):
+    """split a discard amount `usage * share` (either order) into (usage, share): the share is the
+    factor that depends on the rank"""
+    if not (isinstance(n, tuple) and n and n[0] == '*' and len(n) == 3):
+        raise AnalysisBroken('discard amount is not a product usage * share')
+    a, b = n[1], n[2]
+    da = any(T.occurs(a, r) for r in rank_terms)
+    db = any(T.occurs(b, r) for r in rank_terms)
+    if db and not da:
+        return a, b
+    if da and not db:
+        return b, a
+    return a, b
+
+
+def exactly_one_path(pcs, max_atoms=8):
+    """True iff for every truth assignment of the condition atoms exactly one of the path conditions
+    holds (the paths partition the executions); None if there are too many atoms"""
+    from itertools import product
+
+    def atoms(c, out):
+        if isinstance(c, tuple) and c and c[0] in ('and', 'or'):
+            atoms(c[1], out)
+            atoms(c[2], out)
+        elif isinstance(c, tuple) and c and c[0] == 'not':
+            atoms(c[1], out)
+        elif c not in (T.TRUE, T.FALSE):
+            out.add(pos(c))
+
+    def pos(c):
+        # positive spelling of a comparison atom and its polarity are handled by norm_cond
+        n = norm_cond(c)
+        if isinstance(n, tuple) and n and n[0] == '!=':
+            return ('==', n[1], n[2])
+        return n
+
+    def ev(c, asg):
+        if c == T.TRUE:
+            return True
+        if c == T.FALSE:
+            return False
+        if isinstance(c, tuple) and c and c[0] == 'and':
+            return ev(c[1], asg) and ev(c[2], asg)
+        if isinstance(c, tuple) and c and c[0] == 'or':
+            return ev(c[1], asg) or ev(c[2], asg)
+        if isinstance(c, tuple) and c and c[0] == 'not':
+            return not ev(c[1], asg)
+        n = norm_cond(c)
+        if isinstance(n, tuple) and n and n[0] == '!=':
+            return not asg[('==', n[1], n[2])]
+        return asg[n]
+    ats = set()
+    for pc in pcs:
+        for c in pc:
+            atoms(c, ats)
+    ats = sorted(ats, key=repr)
+    if len(ats) > max_atoms:
+        return None
+    for vals in product((False, True), repeat=len(ats)):
+        asg = dict(zip(ats, vals))
+        if sum(1 for pc in pcs if all(ev(c, asg) for c in pc)) != 1:
+            return False
+    return True
+
+
+def ite_leaves(t):
+    if isinstance(t, tuple) and t and t[0] == 'ite':
+        return ite_leaves(t[2]) + ite_leaves(t[3])
+    return [t]
